@@ -141,7 +141,9 @@ CLAIMS = {
         "order; the reported transfer type changes only on a positively answered TYPE command; connect with a user name = connect then "
         "login. Correspondence: login x 15 reply codes at each step, rename, TYPE and every simple call x every code, both types, random "
         "histories; real client vs. model vs. reference automaton.",
-   note="TLS variants of connect / login (AUTH TLS, PBSZ, PROT) are in the C11 layer.", ref="DESIGN.md section 7 C10"),
+   note="TLS variants (C10t.lean, theorems over the TLS layer of the model): login with a TLS context writes exactly loginLinesTls "
+        "(USER, PASS after 331, PBSZ 0, PROT P, TYPE; stopping at the first negative reply), connect writes connectLinesTls (greeting, "
+        "AUTH TLS, handshake, login), driven by the codes received, and returns the replies received.", ref="DESIGN.md section 7 C10"),
  "C20": dict(
    text="Theorems over the application model for every input script, server and directory: the program ends with success status and only "
         "at `exit` or end of input; a connection-needing command while disconnected answers 'Connection is not open.' and changes "
